@@ -81,7 +81,7 @@ fn check(case: &SubCase, run: &mut Run) -> Result<(), (Vec<u8>, String)> {
     if !dt.errors.is_empty() || dt.panic.is_some() {
         return Err((vec![], format!("definition with references accepted but the inlined twin is rejected: {:?}", dt.errors)));
     }
-    if dt.output != p.output {
+    if model::prep::normalize_tokens(&dt.output) != model::prep::normalize_tokens(&p.output) {
         return Err((vec![], "generate() differs between the definition with references and the definition with inlined patterns".into()));
     }
     let inputs = inputs_for(&p, def, &[], &[], 250, 700, run);
